@@ -8,11 +8,13 @@ pub mod c04;
 pub mod c05;
 #[cfg(not(pv_core))]
 pub mod c07;
+pub mod c06;
 pub mod c08;
 pub mod c09;
 pub mod c16;
 pub mod c17;
 pub mod c18;
+pub mod c20;
 pub mod common;
 #[cfg(not(pv_core))]
 #[cfg(not(pv_core))]
@@ -39,6 +41,7 @@ pub fn run(ctx: &mut Ctx) -> bool {
         "C05" => c05::run(ctx),
         #[cfg(not(pv_core))]
         "C07" => c07::run(ctx),
+        "C06" => c06::run(ctx),
         "C08" => c08::run(ctx),
         "C09" => c09::run(ctx),
         "C16" => c16::run(ctx),
@@ -56,6 +59,7 @@ pub fn run(ctx: &mut Ctx) -> bool {
         "C14" => c14::run(ctx),
         #[cfg(not(pv_core))]
         "C15" => c15::run(ctx),
+        "C20" => c20::run(ctx),
         _ => return false,
     }
     true
